@@ -869,7 +869,42 @@ func c02AsHCL(c *Ctx) {
 					}
 				}
 			}
-			c.Check(good, "ashcl.fields", FuncName(fn)+":append[Blocks]", call.Pos(), "appends AsHCLBlock of b.Blocks[i], i ascending", "the content's block list is not built by appending each wanted block of b.Blocks in ascending order")
+			// the walk over b.Blocks is the outermost loop around the append: an enclosing loop
+			// (e.g. over the schema's block types) would group the result by its own order
+			if good {
+				var hdr *ssa.BasicBlock
+				if sl, ok := call.Call.Args[1].(*ssa.Slice); ok {
+					if al, ok := sl.X.(*ssa.Alloc); ok {
+						if c2, ok := storesInto(al)[0].Val.(*ssa.Call); ok {
+							if ld, ok := c2.Call.Args[0].(*ssa.UnOp); ok {
+								if ia, ok := ld.X.(*ssa.IndexAddr); ok {
+									hdr = rangeHeader(ia.Index)
+								}
+							}
+						}
+					}
+				}
+				for _, scc := range sccBlocks(fn.Blocks, nil) {
+					in := false
+					for _, sb := range scc {
+						if sb == b {
+							in = true
+						}
+					}
+					if !in || len(scc) < 2 || hdr == nil {
+						continue
+					}
+					for _, sb := range scc {
+						if sb == hdr || !isLoopHeader(sb) {
+							continue
+						}
+						if !hdr.Dominates(sb) {
+							good = false
+						}
+					}
+				}
+			}
+			c.Check(good, "ashcl.fields", FuncName(fn)+":append[Blocks]", call.Pos(), "appends AsHCLBlock of b.Blocks[i], i ascending, in one pass", "the content's block list is not built by appending each wanted block in one ascending pass over b.Blocks (an enclosing loop groups the blocks by something other than source order)")
 		}
 	}
 	c.Floor("ashcl.fields block appends", n, 1, "PartialContent's block loop")
@@ -914,4 +949,32 @@ func isRangeIndex(v ssa.Value) bool {
 		}
 	}
 	return init
+}
+
+// rangeHeader: the block holding the range-index phi that idx (the phi or phi+1) belongs to.
+func rangeHeader(idx ssa.Value) *ssa.BasicBlock {
+	switch x := idx.(type) {
+	case *ssa.Phi:
+		return x.Block()
+	case *ssa.BinOp:
+		if p, ok := x.X.(*ssa.Phi); ok {
+			return p.Block()
+		}
+	}
+	return nil
+}
+
+// isLoopHeader: the block starts a range loop (a range-index phi, or the Next of a map/string range).
+func isLoopHeader(b *ssa.BasicBlock) bool {
+	for _, ins := range b.Instrs {
+		switch x := ins.(type) {
+		case *ssa.Phi:
+			if isRangeIndex(x) {
+				return true
+			}
+		case *ssa.Next:
+			return true
+		}
+	}
+	return false
 }
